@@ -407,7 +407,9 @@ def _lifo(model: Model, L: RuleResult):
     # and _cur_objparams is updated to the new ones after installing
     upd = [s for s in own_nodes(so.node) if isinstance(s, ast.Assign) and any(isinstance(t, ast.Attribute) and t.attr == "_cur_objparams" for t in s.targets)]
     arg = so.params()[1]
-    if upd and arg in names_loaded(upd[0].value):
+    from ..flow import origins as _origins
+    _sdefs = function_defs(so.node)
+    if upd and (arg in names_loaded(upd[0].value) or any(arg in names_loaded(o) for o in _origins(upd[0].value, _sdefs))):
         L.ok(so.fq, "_cur_objparams updated to the installed parameters")
     else:
         L.bad(so, so.node, "_cur_objparams is not updated to the installed parameters")
